@@ -356,6 +356,10 @@ def rule_set_unset(ctx):
                 ok = tr.path.outcome == "return" and nop and not holds_v
             if want == "set" and sets:
                 val = sets[0][3]
+                if hasattr(val, "attrs") and not isinstance(val, Sym):  # a record holding the text: the field that carries the rendering
+                    key_ = sets[0][2]
+                    val = next((x for x in val.attrs.values() if isinstance(x, Sym) and x.origin and x.origin[0] == "sql" and x is not key_
+                                and tagof(x) != tagof(key_)), val)
                 dia = val.origin[2] if isinstance(val, Sym) and val.origin and val.origin[0] == "sql" and len(val.origin) > 2 else None
                 okd = isinstance(dia, Const) and dia.v == "snowflake"
                 ctx.ob("C15.g", "the stored value is rendered in the dialect it is re-parsed in (snowflake)", okd, "fakesnow/variables.py", tagof(dia))
